@@ -259,6 +259,71 @@ Theorem C13_loader_sequence_pure : forall V (F : files V) (qs : list query),
 Proof. exact loader_calls_pure. Qed.
 Print Assumptions C13_loader_sequence_pure.
 
+(* ---- preprocess_steps (round 4): the library steps are abstract functions f1..f5 of (rows, columns, snippet) ---- *)
+
+(* With no step requested the pipeline is the extraction studied above: every theorem about `traces`
+   is a theorem about traces_pp [] . *)
+Theorem C13_preprocess_none : forall V (src : Z -> Z -> V) f1 f2 f3 f4 f5 choose P,
+  traces_pp V src f1 f2 f3 f4 f5 choose P [] = traces V src choose P.
+Proof. intros. apply traces_pp_nil. Qed.
+Print Assumptions C13_preprocess_none.
+
+(* With any admissible step list (subset of the five, not car and kfilt together) no job raises, row r of
+   the table still has waveform_index r, and cell (r, j, t) of the traces is read from the snippet of the
+   chunk i = sample // chunk_size that contains the spike, AFTER the requested steps have been applied to
+   that snippet (c_nc rows, chunk_len i columns, starting at sample chunk_a i of the recording), at
+   channel nbr(peak)[j] and local column sample - trough_offset + t - chunk_a i; NaN where the neighbour
+   is the pad value. *)
+Theorem C13_preprocess_window : forall V (src : Z -> Z -> V) f1 f2 f3 f4 f5 choose P steps,
+  guards P -> choose_ok choose -> steps_ok steps = true ->
+  forall r, (r < length (table choose P))%nat ->
+  exists mem, traces_pp V src f1 f2 f3 f4 f5 choose P steps = Some mem /\
+    length mem = length (table choose P) /\
+    let row := nth r (sorted_table choose P) drow in
+    let i := r_sample row / c_size P in
+    r_wfi row = Z.of_nat r /\
+    exists w, nth r mem None = Some w /\
+      forall j t, (j < length (znth [] (cidx P) (r_chan row)))%nat -> 0 <= t < c_L P ->
+        nth (Z.to_nat t) (nth j w []) None =
+        let ch := nth j (znth [] (cidx P) (r_chan row)) 0 in
+        if ch =? c_nc P then None
+        else Some (preprocess V f1 f2 f3 f4 f5 steps (c_nc P) (chunk_len P i) (raw_snippet V src P i) ch
+                              (r_sample row - c_to P + t - chunk_a P i)).
+Proof.
+  intros V src f1 f2 f3 f4 f5 choose P steps (H1 & H2 & H3 & H4 & H5 & H6 & H7) Hc Hok r Hr.
+  destruct (traces_pp_row V src f1 f2 f3 f4 f5 choose P H1 H2 H3 H4 H5 Hc H6 H7 steps r Hok Hr)
+    as [mem [Ht [Hl [Hw [_ Hn]]]]].
+  exists mem. split; [exact Ht|]. split; [exact Hl|]. cbv zeta. split; [exact Hw|].
+  eexists. split; [exact Hn|]. intros j t Hj Htt.
+  rewrite window_cell by assumption. cbv zeta. reflexivity.
+Qed.
+Print Assumptions C13_preprocess_window.
+
+(* The order of application is fixed (butterworth, phase_shift, bad_channel_interpolation, car, kfilt) and
+   does not depend on the order in which the caller lists the steps; an inadmissible list is refused. *)
+Theorem C13_preprocess_order : forall V f1 f2 f3 f4 f5 (steps steps' : list Z) nrows len (s : snippet V),
+  (Permutation steps steps' ->
+     preprocess V f1 f2 f3 f4 f5 steps nrows len s = preprocess V f1 f2 f3 f4 f5 steps' nrows len s) /\
+  preprocess V f1 f2 f3 f4 f5 [5; 3; 2; 1] nrows len s =
+    f5 nrows len (f3 nrows len (f2 nrows len (f1 nrows len s))) /\
+  preprocess V f1 f2 f3 f4 f5 [4; 1] nrows len s = f4 nrows len (f1 nrows len s) /\
+  forall src choose P, steps_ok steps = false -> traces_pp V src f1 f2 f3 f4 f5 choose P steps = None.
+Proof.
+  intros V f1 f2 f3 f4 f5 steps steps' nrows len s. split; [|split; [reflexivity|split; [reflexivity|]]].
+  - intros Hp.
+    assert (H : forall k, has_step k steps = has_step k steps').
+    { intros k. unfold has_step. destruct (existsb (Z.eqb k) steps) eqn:E; symmetry.
+      - apply existsb_exists in E. destruct E as [x [Hx He]]. apply existsb_exists. exists x. split; [|exact He].
+        eapply Permutation_in; eauto.
+      - destruct (existsb (Z.eqb k) steps') eqn:E'; [|reflexivity].
+        apply existsb_exists in E'. destruct E' as [x [Hx He]].
+        assert (existsb (Z.eqb k) steps = true); [|congruence].
+        apply existsb_exists. exists x. split; [|exact He]. eapply Permutation_in; [symmetry|]; eauto. }
+    unfold preprocess. now rewrite !H.
+  - intros src choose P Hok. unfold traces_pp. now rewrite Hok.
+Qed.
+Print Assumptions C13_preprocess_order.
+
 (* The hypothesis trough_offset <= chunk size (with more than one chunk) cannot be dropped:
    with chunk size 8 < trough_offset 10 the second job's snippet start s0 - trough_offset is
    negative, the Python slice wraps to the end of the file, the snippet is empty and the job
